@@ -63,6 +63,16 @@ def den(E, A, v, p):
         if z3.eq(p, A.nil):
             return I.T.sel_check(v.t)
         return A.mem(v.t, p)
+    d = _den_obj(E, A, v, p)
+    try:        # the object as an opaque value has the membership function of its class (used when the real code compares
+        E.assume(A.mem(I.to_u(v), p) == d)       # a structured selection with an opaque one by ==)
+    except Exception:
+        pass
+    return d
+
+
+def _den_obj(E, A, v, p):
+    z3, I = E.z3, E.I
     n = v.cls.name
     if n == "AllSel":
         return z3.BoolVal(True)
@@ -72,7 +82,8 @@ def den(E, A, v, p):
         return A.is_nil(p)
     if n == "StaticSel":
         a = v.fields["addr"]
-        wild = z3.BoolVal(True) if a is Ellipsis else (I.to_u(a) == I.to_u(Ellipsis))    # `...` matches every component
+        # `...` matches every component
+        wild = z3.BoolVal(True) if a is Ellipsis else (z3.BoolVal(False) if isinstance(a, (str, int)) else I.to_u(a) == I.to_u(Ellipsis))
         if z3.is_app(p) and p.decl().name() == "addr_cons":
             return z3.And(z3.Or(wild, p.arg(0) == I.to_u(a)), den(E, A, v.fields["s"], p.arg(1)))
         return z3.And(z3.Not(A.is_nil(p)), z3.Or(wild, A.head(p) == I.to_u(a)), den(E, A, v.fields["s"], A.tail(p)))
